@@ -349,8 +349,8 @@ class Run:
         with open(os.path.join(work, module + ".cfg"), "w") as f:
             f.write(cfg)
         jopts = ["-XX:+UseParallelGC"]
-        if heap:
-            jopts.append("-Xmx" + heap)
+        # an explicit bound: the JVM default (a quarter of the machine) times several concurrent checks starves everybody
+        jopts.append("-Xmx" + (heap or os.environ.get("VERIF_TLC_HEAP", "6g")))
         if deque:
             jopts.append("-Dtlc2.tool.queue.IStateQueue=StateDeque")
         cmd = ["java"] + jopts + ["-cp", TLA_CP, "tlc2.TLC", "-metadir", os.path.join(work, "meta"),
@@ -400,14 +400,14 @@ class Run:
                 raise MachineryError("TLC error on %s: %s\n%s" % (name, bad[:3], res.out[-2000:]))
         return res
 
-    def validate_traces(self, module, cfg, traces, name=None, workers=8, timeout=900, deque=False):
+    def validate_traces(self, module, cfg, traces, name=None, workers=8, timeout=900, deque=False, heap=None):
         """Batch trace validation: `traces` is a list of {"id":..,"events":[..]}; the trace spec has
         one initial state per trace and prints one JSON verdict {t, ok, i, clause, ...} per trace.
         Returns {id: verdict}.  A trace without verdict is a machinery failure."""
         if not traces:
             return {}
         work_name = name or module
-        res = self.tlc(module, cfg, name=work_name, workers=workers, timeout=timeout, deque=deque,
+        res = self.tlc(module, cfg, name=work_name, workers=workers, timeout=timeout, deque=deque, heap=heap,
                        env={"TRACE_FILE": "traces.json"},
                        extra_files={"traces.json": json.dumps(traces)}, expect_ok=False)
         verdicts = {}
